@@ -10,7 +10,10 @@ META = {
             "earliest change id until trim. The same families are merged by the real repl_merge_valueset and every real result "
             "is judged by the same TLA+ predicates. System level: histories on 2-3 real servers, where TLC checks at every "
             "quiescent mesh that no replica still holds as live a session another replica revoked.",
-    "note": "1 key exhaustively (quick), 2 keys exhaustively (thorough), 2-3 keys sampled; audit-log valuesets not covered; for keys "
+    "note": "design level, sessions: the per-key merge is proved (TLAPS, KMergeProof) idempotent, commutative, associative, "
+            "revocation-absorbing and earliest-revocation-keeping for ALL well-formed states and the map merge proved to be that "
+            "join pointwise, so any number of views in any order and grouping merge to one result; key objects and trimming "
+            "are model-checked only; 1 key exhaustively (quick), 2 keys exhaustively (thorough), 2-3 keys sampled; audit-log valuesets not covered; for keys "
             "the retained status change id is not compared (only the status), see DESIGN C11; order independence is demanded while "
             "no revocation is older than the trim point (the statement's window)",
     "design_ref": "DESIGN.md section 6, C11",
@@ -32,6 +35,12 @@ def run(tier, replay):
             mc = lib.tlc("KMergeMC", cfg=cfg, pid=PID, workers=4 if tier == "quick" else 8, timeout=3000)
             lib.tlc_must_pass(mc, f"{cfg}: merge transcription vs L1")
             states += mc["distinct"]; trans += mc["generated"]
+    # unbounded design level: the per-key session merge is a join of a total order (proved by TLAPS from KMerge itself)
+    proof = None
+    if not replay:
+        proof = lib.tlapm_prove("KMergeProof", ["KMerge"], PID,
+                                "JoinIdem, JoinComm, JoinAssoc, RevAbsorbs, EarliestRevKept, MergeIsPointwiseJoin "
+                                "(sessions; all well-formed states, maps of any size)")
     # (A) operator level
     fam_lines = []
     drift = 0
@@ -88,6 +97,7 @@ def run(tier, replay):
         "l2_drift": drift,
         "samples": lib.sample(fam_lines, 2) + [{k: v for k, v in json.loads(l).items() if k != "st"} for l in hist_lines[:3]],
         "exhaustive": True,
+        "unbounded_proof": proof,
         "rule": "every family over one key (quick) / two keys (thorough) x 2 trims x 3 kinds, each merged in 6 orders x 2 groupings by the real code",
     }
     R.assumptions = ["three views with distinct attribute change ids 1<2<3; revocation change ids from one server"]
